@@ -194,6 +194,15 @@ def one(case, pl):
             guarded(lambda: touch(build_labelled(OTHER_CASE, OTHER_LABELS)[0]))
     pomdp, sid, aid, oid, raw = build_labelled(case["pomdp"], labels, int_types=it_, shared=shd)
     snap0 = snapshot(raw)
+    hist = case.get("history") or []
+    if "discount-edited" in hist:
+        # history on ONE object: it is first planned on with another discount rate, then its discount_rate is
+        # edited to the case's value; every later plan must be for the object's CURRENT definition
+        final = pomdp.discount_rate
+        pomdp.discount_rate = fl(case["history_gamma"])
+        guarded(lambda: QMDP().plan_on(pomdp))
+        guarded(lambda: PointBasedValueIteration(min_belief_expansions=1, max_belief_expansions=1, horizon=2).plan_on(pomdp))
+        pomdp.discount_rate = final
     warm = None
     if mode == "warm-twisted-first":
         # same labels and sizes, other numbers (rows shifted by one state, rewards x64)
@@ -278,6 +287,10 @@ def one(case, pl):
 
     # ---- QMDP ----
     res["qmdp"] = {}
+    if "crude-solver-first" in hist:
+        # the same pomdp object is first solved crudely (2 sweeps of value iteration, far from converged);
+        # the accurate plans that follow must not inherit anything from it
+        guarded(lambda: QMDP(mdp_solver=ValueIteration(max_iterations=2)).plan_on(pomdp))
     for name in case.get("qmdp_solvers", ["vi", "pi"]):
         def run_q():
             # "pi" = QMDP() with its default solver (mdp_solver=None)
